@@ -145,6 +145,27 @@ def runC16 (line : String) : String :=
     | some w, some _, some seed =>
       if w = 0 ∨ w > 64 ∨ seed ≥ 2 ^ 64 ∨ variant ∉ ["al", "o1", "o2", "o3", "st"] then "bad-case" else "seq ok"
     | _, _, _ => "bad-case"
+  -- `P <w> <h> <k> <filter> <seed>`: R8G8B8A8 texture with a full chain; levels 0..k-1 written by hand with
+  -- generation off, then generation on and level k written: bytes written by that call (level k and every
+  -- generated level behind it, sizes from the cursor look-ahead of Encoder.lean) and whether `finish` accepts
+  | ["P", w, h, k, filter, seed] =>
+    match nat? w, nat? h, nat? k, parseFilter16 filter, nat? seed with
+    | some w, some h, some k, some _, some seed =>
+      let mips := maxMipCount (max w h)
+      if w = 0 ∨ h = 0 ∨ w > 256 ∨ h > 256 ∨ seed ≥ 2 ^ 64 ∨ k ≥ mips then "bad-case" else
+      match Texture.create w h mips (.fixed 4) with
+      | .error _ => "err layout"
+      | .ok t =>
+        let e0 : Enc := { Enc.new (.texture t) 1 1 with generate := false }
+        let pre := (List.range k).foldl (fun (acc : Enc × Bool) l =>
+          let (e', r) := acc.1.write (mipSize w l) (mipSize h l) false
+          (e', acc.2 && r == .ok)) (e0, true)
+        if !pre.2 then "err pre" else
+        let e1 : Enc := { pre.1 with generate := true }
+        let (e2, r) := e1.write (mipSize w k) (mipSize h k) false
+        if r ≠ .ok then "err write"
+        else s!"pseq ok gen={e2.written - e1.written} done={if e2.finish == .ok then 1 else 0}"
+    | _, _, _, _, _ => "bad-case"
   | _ => "bad-case"
 
 end Dds.Drv.C16
